@@ -416,6 +416,31 @@ func extractC09(c *ctx) (Facts, error) {
 		facts["runhandlers_snapshot_passed_to_run"] = iSnap >= 0 && iRun > iSnap && strings.Contains(st[iRun], ".run(ctx, "+snapVar+")")
 		facts["runhandlers_skips_started"] = strings.Contains(c.src(fd), "if h.started { continue }")
 	}
+	// --- Run: the plugins are executed before the handlers are started (what a plugin registers reaches them)
+	if fd := get("Router", "Run"); fd != nil {
+		st := c.stmtsFlat(fd)
+		iPlug := indexOf(st, func(s string) bool { return strings.Contains(s, "plugin(r)") })
+		iRH := indexOf(st, has(".RunHandlers(ctx)"))
+		facts["run_loads_plugins_before_runhandlers"] = iPlug >= 0 && iRH > iPlug
+	}
+	// --- MessageTransformSubscriberDecorator wraps: it returns a fresh object around what it is given and never
+	// modifies that (the same pre-decorated subscriber may be given to several handlers)
+	if fd, err := c.fn("message/decorator.go", "", "MessageTransformSubscriberDecorator"); err != nil {
+		note(err)
+	} else {
+		fresh := false
+		ast.Inspect(fd, func(x ast.Node) bool {
+			if fl, ok := x.(*ast.FuncLit); ok && len(fl.Type.Params.List) == 1 && len(fl.Body.List) == 1 {
+				if rs, ok := fl.Body.List[0].(*ast.ReturnStmt); ok && len(rs.Results) == 2 {
+					r0 := c.src(rs.Results[0])
+					p := fl.Type.Params.List[0].Names[0].Name
+					fresh = strings.HasPrefix(r0, "&messageTransformSubscriberDecorator{") && strings.Contains(r0, "sub: "+p+",")
+				}
+			}
+			return true
+		})
+		facts["transform_subscriber_decorator_returns_fresh_wrapper"] = fresh
+	}
 	// --- decorators
 	if fd := get("Router", "decorateHandlerPublisher"); fd != nil {
 		sh, err := c.foldLoop(fd, "")
